@@ -156,4 +156,22 @@ def scopeButOrder (r : Rec) : Bool :=
   sortedBy (fun (a b : Reg) => areaLt a.feat.loc b.feat.loc) r.regs &&
   sortedBy (fun (a b : Reg) => locationsOverlap a.feat.loc b.feat.loc) r.regs
 
+/-! ### locations up to the cut into parts -/
+
+/-- `accRev`: parts kept so far, last one first; `part` is merged into the last one when it continues
+    exactly where that one stops in transcription order -/
+def mergeStep (accRev : List Part) (part : Part) : List Part :=
+  match accRev with
+  | [] => [part]
+  | prev :: rest =>
+    if prev.strand == part.strand && part.strand == .rev && part.hi == prev.lo then
+      ⟨part.lo, prev.hi, part.strand⟩ :: rest
+    else if prev.strand == part.strand && part.strand != .rev && part.lo == prev.hi then
+      ⟨prev.lo, part.hi, part.strand⟩ :: rest
+    else part :: prev :: rest
+
+/-- the same bases in the same transcription order with as few parts as possible: the normal form
+    used to compare two locations "whatever the cut into parts" -/
+def mergeAdjoining (l : Loc) : Loc := Loc.ofParts ((l.parts.foldl mergeStep []).reverse)
+
 end ASV.Serial
